@@ -52,7 +52,7 @@ func (v *VVar) Valid(src interface{}) error {
 again:
 	// 判断是否能进行验证
 	switch kind := ty.Kind(); kind {
-	case reflect.String:
+	case reflect.String, reflect.Bool:
 		supportType = true
 	case reflect.Slice, reflect.Array: // 再验证下里面的内容类型
 		ty = ty.Elem()
